@@ -271,7 +271,9 @@ fn check_program(base: &Xstate, src: &str, rep: &Reporter, stats: &mut BTreeMap<
         let f = fin(&mut r.xs.clone(), &r.result);
         let refused = lim_err(&r.result, "heap limit");
         if h >= max_heap {
-            if f != ufin {
+            // a source that is rejected gives its variables back: the cells it needed while it was
+            // being compiled are not visible in the trace, so "sufficient" is not known for it
+            if f != ufin && u.compiled {
                 cx.report("heap-limit:sufficient-but-differs", lim, format!("largest heap {}; unconstrained {:?} / limited {:?}", max_heap, ufin, f));
             }
         } else {
@@ -318,7 +320,8 @@ fn check_program(base: &Xstate, src: &str, rep: &Reporter, stats: &mut BTreeMap<
             Lim::Heap(Some(n)) => n >= max_heap,
             _ => true,
         };
-        if sufficient && f != uf {
+        let heap_need_unknown = matches!(lim, Lim::Heap(_)) && !u.compiled;
+        if sufficient && f != uf && !heap_need_unknown {
             cx.report("eval:sufficient-but-differs", lim, format!("unconstrained {:?} / limited {:?}", uf, f));
         }
         if let (Lim::Insn(Some(n)), true) = (lim, need_eval > 0) {
